@@ -141,14 +141,14 @@ Print Assumptions C12_annotations.
 
 (* Two blobs with the same bytes but different names both materialise: whatever subset of
    the layers oras.Copy pushed (at least one per content, any order), after the manifest is
-   pushed every layer name exists with its content -- ForceCAS and IgnoreNoName off. *)
+   pushed every layer name exists with its content -- ForceCAS off, IgnoreNoName on or off. *)
 Theorem C12_same_bytes_two_names :
-  forall pushed layers,
+  forall inn pushed layers,
     NoDup (map fst layers) -> (forall n d, In (n, d) layers -> n <> []) ->
     incl pushed layers -> NoDup (map fst pushed) ->
     (forall n d, In (n, d) layers -> In d (map snd pushed)) ->
     forall n d, In (n, d) layers ->
-      name_lookup (s_names (copy_into false false pushed layers)) n = Some d.
+      name_lookup (s_names (copy_into false inn pushed layers)) n = Some d.
 Proof. exact same_bytes_two_names. Qed.
 Print Assumptions C12_same_bytes_two_names.
 
@@ -158,15 +158,16 @@ Theorem C12_forcecas_no_restore :
 Proof. exact forcecas_no_restore. Qed.
 Print Assumptions C12_forcecas_no_restore.
 
-(* IgnoreNoName: the current code drops the manifest before restoreDuplicates, the second
-   name stays missing.  Known finding "duplicate-not-restored-ignorenoname". *)
+(* IgnoreNoName before the fix (model copy_into_prefix): Store.Push returned on errSkipUnnamed
+   before restoreDuplicates, the second name stayed missing.
+   Finding "duplicate-not-restored-ignorenoname", fixed in the repository. *)
 Theorem C12_same_bytes_ignorenoname_refuted :
   exists pushed layers,
     NoDup (map fst layers) /\ (forall n d, In (n, d) layers -> n <> []) /\
     incl pushed layers /\ NoDup (map fst pushed) /\
     (forall n d, In (n, d) layers -> In d (map snd pushed)) /\
     exists n d, In (n, d) layers /\
-      name_lookup (s_names (copy_into false true pushed layers)) n = None.
+      name_lookup (s_names (copy_into_prefix false true pushed layers)) n = None.
 Proof. exact ignorenoname_refuted. Qed.
 Print Assumptions C12_same_bytes_ignorenoname_refuted.
 
@@ -189,5 +190,5 @@ Example C12_nonvacuous :
 Proof. vm_compute. repeat split; reflexivity. Qed.
 
 Example C12_nonvacuous_machine :
-  name_lookup (s_names (copy_into false false [(b "a", 1%nat)] [(b "a", 1%nat); (b "b", 1%nat)])) (b "b") = Some 1%nat.
+  name_lookup (s_names (copy_into false true [(b "a", 1%nat)] [(b "a", 1%nat); (b "b", 1%nat)])) (b "b") = Some 1%nat.
 Proof. vm_compute. reflexivity. Qed.
